@@ -95,8 +95,16 @@ type Scenario struct {
 	// SiblingMock: the source package already holds another moq-generated file
 	// (the mock of another go:generate line), which goes stale - and stops the
 	// package from type-checking - when the interfaces evolve
-	SiblingMock bool   `json:"sibling_mock,omitempty"`
-	Steps       []Step `json:"steps"`
+	SiblingMock bool `json:"sibling_mock,omitempty"`
+	// HardLinked: before every run the -out file, when it is a regular file with
+	// one name, gets a second name elsewhere in the tree (a hard link kept as a
+	// snapshot); replacing -out must not reach through to that other name
+	HardLinked bool `json:"hard_linked,omitempty"`
+	// SelfTyped: the runs mock the interfaces of srcSelf (parameters of the
+	// package's own interface types, unnamed) under mock names that are what
+	// moq derives as parameter names
+	SelfTyped bool   `json:"self_typed,omitempty"`
+	Steps     []Step `json:"steps"`
 }
 
 func (s Step) String() string {
@@ -141,6 +149,9 @@ func (sc *Scenario) String() string {
 	}
 	if sc.SiblingMock {
 		p = append(p, "[another generated mock in the package]")
+	}
+	if sc.HardLinked {
+		p = append(p, "[-out has a second, hard-linked name under keepsake/ before every run]")
 	}
 	for _, s := range sc.Steps {
 		p = append(p, s.String())
@@ -216,6 +227,32 @@ func GenScenario(tp *tape.Tape, seed uint64, pf Profile) *Scenario {
 			f2.Frac = 0
 		}
 		st.Fault2 = f2
+	}
+	// drawn from a tape of their own, so that the scenarios of earlier versions
+	// of this generator stay what they were
+	sur := tape.New(tape.MixS(seed, "surroundings"))
+	sc.HardLinked = sc.Place.Writable && sc.Place.Symlink == "" && sur.Chance(200, 1000)
+	sc.SelfTyped = !sc.IncompleteMod && sur.Chance(150, 1000)
+	if sc.HardLinked {
+		runs := 0
+		for _, st := range sc.Steps {
+			if st.Kind == StepRun || st.Kind == StepRepeat {
+				runs++
+			}
+		}
+		if runs < 2 {
+			// a second generation whose bytes differ from the first
+			sc.Steps = append(sc.Steps, Step{Kind: StepEvolve, Damage: "shape"}, genRun(sur, Profile{RmPM: 300}, sc.Place))
+		}
+	}
+	if sc.SelfTyped {
+		lists := [][]string{{"Registry", "Handler:handler"}, {"Handler:handler", "Registry:registry"}, {"Registry:registryMock", "Alpha:alpha", "Handler:handler"}, {"Registry", "Alpha:alpha"}, {"Handler:handler", "Registry"}}
+		for i := range sc.Steps {
+			st := &sc.Steps[i]
+			if st.Kind == StepRun && st.Bad == "" && !st.NoArgs {
+				st.Names = append([]string(nil), lists[sur.Int(len(lists))]...)
+			}
+		}
 	}
 	return sc
 }
